@@ -545,36 +545,85 @@ func accesses(fset *token.FileSet, s ast.Stmt) []ast.Stmt {
 	for k := range extraLocal {
 		local[k] = true
 	}
-	note := func(sel *ast.SelectorExpr, write bool) {
+	// two kinds of access: to the CONTENTS of the map (index, range, len,
+	// delete, assignment to an element: announced with the map value, whose
+	// identity is the key) and to the VARIABLE holding it (the bare field used
+	// as a value or assigned: announced with its address). Reading the
+	// variable does not conflict with writes to the contents.
+	vacc := map[string]bool{} // variable accesses
+	monitored := func(sel *ast.SelectorExpr) bool {
 		if !mapFields[sel.Sel.Name] || !simpleChain(sel.X) || local[rootName(sel)] {
-			return
+			return false
 		}
 		if id, ok := sel.X.(*ast.Ident); ok && id.Obj == nil {
 			if _, isPkg := imports[id.Name]; isPkg {
-				return
+				return false
 			}
+		}
+		return true
+	}
+	note := func(sel *ast.SelectorExpr, write bool) { // contents
+		if !monitored(sel) {
+			return
 		}
 		k := exprText(fset, sel)
 		acc[k] = acc[k] || write
 		exprs[k] = sel
 	}
+	noteVar := func(sel *ast.SelectorExpr, write bool) {
+		if !monitored(sel) {
+			return
+		}
+		k := exprText(fset, sel)
+		vacc[k] = vacc[k] || write
+		exprs[k] = sel
+	}
 	var scan func(n ast.Node)
 	scan = func(n ast.Node) {
+		if n == nil || isNilNode(n) {
+			return
+		}
 		ast.Inspect(n, func(x ast.Node) bool {
 			switch v := x.(type) {
 			case *ast.FuncLit:
 				return false
+			case *ast.IndexExpr:
+				if sel, ok := v.X.(*ast.SelectorExpr); ok && monitored(sel) {
+					note(sel, false)
+					scan(sel.X)
+					scan(v.Index)
+					return false
+				}
 			case *ast.CallExpr:
-				if id, ok := v.Fun.(*ast.Ident); ok && (id.Name == "delete" || id.Name == "clear") && len(v.Args) > 0 {
-					if sel, ok := v.Args[0].(*ast.SelectorExpr); ok {
-						note(sel, true)
+				if id, ok := v.Fun.(*ast.Ident); ok && len(v.Args) > 0 {
+					if sel, ok := v.Args[0].(*ast.SelectorExpr); ok && monitored(sel) {
+						switch id.Name {
+						case "delete", "clear":
+							note(sel, true)
+						case "len":
+							note(sel, false)
+						default:
+							return true
+						}
+						scan(sel.X)
+						for _, a := range v.Args[1:] {
+							scan(a)
+						}
+						return false
 					}
 				}
 			case *ast.SelectorExpr:
-				note(v, false)
+				noteVar(v, false)
 			}
 			return true
 		})
+	}
+	if rs, ok := s.(*ast.RangeStmt); ok {
+		if sel, ok := rs.X.(*ast.SelectorExpr); ok && monitored(sel) {
+			note(sel, false)
+			scan(sel.X)
+			parts = nil
+		}
 	}
 	for _, p := range parts {
 		scan(p)
@@ -583,8 +632,9 @@ func accesses(fset *token.FileSet, s ast.Stmt) []ast.Stmt {
 	for _, l := range lhs {
 		switch v := l.(type) {
 		case *ast.IndexExpr:
-			if sel, ok := v.X.(*ast.SelectorExpr); ok {
+			if sel, ok := v.X.(*ast.SelectorExpr); ok && monitored(sel) {
 				note(sel, true)
+				scan(sel.X)
 			} else {
 				base := v.X
 				for {
@@ -594,31 +644,38 @@ func accesses(fset *token.FileSet, s ast.Stmt) []ast.Stmt {
 					}
 					base = ie.X
 				}
-				if sel, ok := base.(*ast.SelectorExpr); ok && mapFields[sel.Sel.Name] && simpleChain(sel.X) && !local[rootName(sel)] {
+				if sel, ok := base.(*ast.SelectorExpr); ok && monitored(sel) {
 					inner = append(inner, v.X)
 				}
 				scan(v.X)
 			}
 			scan(v.Index)
 		case *ast.SelectorExpr:
-			note(v, true)
-			scan(v.X)
+			if monitored(v) {
+				noteVar(v, true)
+				scan(v.X)
+			} else {
+				scan(l)
+			}
 		default:
 			scan(l)
 		}
 	}
 	var out []ast.Stmt
-	for _, e := range inner {
-		pos := fset.Position(s.Pos())
-		site := fmt.Sprintf("%s:%d %s", filepath.Base(pos.Filename), pos.Line, exprText(fset, e))
+	pos := fset.Position(s.Pos())
+	emit := func(arg ast.Expr, write bool, what string) {
+		site := fmt.Sprintf("%s:%d %s", filepath.Base(pos.Filename), pos.Line, what)
 		out = append(out, &ast.ExprStmt{X: &ast.CallExpr{Fun: ast.NewIdent("simAccess"),
-			Args: []ast.Expr{e, boolIdent(true), &ast.BasicLit{Kind: token.STRING, Value: fmt.Sprintf("%q", site)}}}})
+			Args: []ast.Expr{arg, boolIdent(write), &ast.BasicLit{Kind: token.STRING, Value: fmt.Sprintf("%q", site)}}}})
+	}
+	for _, e := range inner {
+		emit(e, true, exprText(fset, e))
 	}
 	for _, k := range sortedKeys(toSet(acc)) {
-		pos := fset.Position(s.Pos())
-		site := fmt.Sprintf("%s:%d %s", filepath.Base(pos.Filename), pos.Line, k)
-		out = append(out, &ast.ExprStmt{X: &ast.CallExpr{Fun: ast.NewIdent("simAccess"),
-			Args: []ast.Expr{&ast.UnaryExpr{Op: token.AND, X: exprs[k]}, boolIdent(acc[k]), &ast.BasicLit{Kind: token.STRING, Value: fmt.Sprintf("%q", site)}}}})
+		emit(exprs[k], acc[k], k)
+	}
+	for _, k := range sortedKeys(toSet(vacc)) {
+		emit(&ast.UnaryExpr{Op: token.AND, X: exprs[k]}, vacc[k], k+" (the variable)")
 	}
 	return out
 }
